@@ -15,6 +15,9 @@ var ExecProfiles = []string{
   multi
     line
   """ , y : "é😀" ) b }`,
+	// strings with raw characters a lexer may special-case: TAB, DEL, U+FFFD, U+FFFF, a BOM, NBSP, U+3000, U+2028;
+	// block strings that are blank on one line, and block strings indented with non-ASCII spaces
+	"{ s ( a : \"x\ty\" , b : \"\ufffd\" , c : [ \"a\ufffdb\uffffc\" , { k : \"\x7f\ufeff\u00a0\u3000\u2028\" } ] , d : \"\"\" \"\"\" , e : \"\"\"\t\"\"\" , f : [ \"\"\"   \"\"\" , 1 , \"\"\"\n\u3000a\n\u3000b\n\"\"\" ] , g : \"\"\"\n\u00a0 a\n\u00a0 b\"\"\" , h : \"\"\"x\n   y\n  z\"\"\" ) @d ( m : \"\"\"\ufffd \"\"\" ) }",
 }
 
 // SDLProfiles are syntactically valid type-system documents.
@@ -54,4 +57,7 @@ block
 type B { "x" g ( a : Int = 1 ) : Int }
 # comment
 enum C { X Y }`,
+	// raw TAB / U+FFFD / NBSP in quoted strings; block strings blank on one line; block strings indented with
+	// non-ASCII spaces; text on the line of the closing quotes, less indented than the others
+	"\"a\tb\ufffd\" type A { \"\"\" \"\"\" f ( \"\"\"\t\"\"\" x : String = \"\"\"   \"\"\" @d ( a : \"\"\"\n\u3000p\n\u3000q\n\"\"\" ) ) : Int @d ( a : [ \"\"\" \"\"\" , { k : \"\"\"\n\u00a0 r\n\u00a0 s\"\"\" } ] ) }\n\"\"\"\n    Hello,\n      World!\n  Bye.\"\"\" enum E { \"\"\"summary\n   detail\"\"\" A @d ( a : \"\\u00e9\ufffd\t\" ) } directive @d ( a : String = \"\"\"\n\n  x\n \t\n\"\"\" ) on ENUM_VALUE | FIELD_DEFINITION | ARGUMENT_DEFINITION",
 }
